@@ -338,4 +338,176 @@ theorem odPass_th {c : Cfg} {s : State} {f : Fault} {v : View} {sf : Bool}
   · have : ∀ new latest, plan c s v ≠ .create new latest := fun n l h => hcr ⟨n, l, h⟩
     rw [odPass_noncreate this] at h ⊢; exact (finish_res_ok h).2.1
 
+/-! ### roll-back clashes and liveness per pass -/
+
+theorem le_latestRev {l : List OSet} {y : OSet} (hy : y ∈ l) : y.rev ≤ latestRev (sortByRev l) := by
+  unfold latestRev
+  cases hl : (sortByRev l).getLast? with
+  | none =>
+    have := List.getLast?_eq_none_iff.mp hl
+    have h2 : y ∈ sortByRev l := mem_sortByRev.mpr hy
+    rw [this] at h2; cases h2
+  | some x => exact (sortByRev_last hl).2 y hy
+
+theorem slowCache_true {c : Cfg} {conf : OSet} {latest t : Nat} (h : slowCache c conf latest t = true) :
+    conf.archived = false ∧ (latest ≤ conf.rev ∨ conf.rev = 0) ∧ conf.owned = true ∧ conf.spec = t := by
+  unfold slowCache at h
+  simp only [Bool.and_eq_true, Bool.or_eq_true, Bool.not_eq_true', beq_iff_eq, decide_eq_true_eq] at h
+  refine ⟨h.1.1.1, ?_, h.1.2, h.2⟩
+  rcases h.1.1.2 with h' | h'
+  · exact .inl h'
+  · exact .inr h'.2
+
+/-- A member of the deployment that reports a higher revision than the ObjectSet squatting on the
+template hash's name is listed by the pass, whatever its cache view: what a view hides is a
+`Blocker`, which carries that very name. -/
+theorem newer_visible {c : Cfg} {s : State} {v : View} {conf m : OSet} (hi : Inv c s)
+    (hc : conf ∈ s.sets) (hcn : conf.name = c.h s.template s.cc) (hm : m ∈ members s)
+    (hlt : conf.rev < m.rev) : m ∈ visible s v := by
+  obtain ⟨hms, hmm⟩ := mem_members.mp hm
+  apply mem_visible hms hmm
+  right
+  intro hu
+  have hb := (hi.unseen_inv m hms hu).2.2
+  have : m = conf := inj_of_pairwise (f := OSet.name) hi.name_nodup hms hc (by rw [hb.2.2.1, hcn])
+  subst this
+  omega
+
+/-- `odPass_exists` with the roll-back clause: in a reachable state a clash with an archived,
+differently specified or OLDER ObjectSet bumps the counter when the pass completes. -/
+theorem odPass_exists_old {c : Cfg} {s : State} (hi : Inv c s) (f : Fault) (v : View) (sf : Bool) :
+    ∀ r ∈ (odPass c s f v sf).reqs, r.outcome = .exists →
+      ∃ conf ∈ s.sets, conf.name = r.obj.name ∧
+        ((conf.archived = true ∨ conf.spec ≠ s.template ∨ OlderRevision (before s) conf) →
+          (odPass c s f v sf).res = .ok → (odPass c s f v sf).st.cc = s.cc + 1) := by
+  intro r hr hex
+  by_cases hcr : ∃ new latest, plan c s v = .create new latest
+  · obtain ⟨new, latest, hplan⟩ := hcr
+    have hname : new.name = c.h s.template s.cc := by rw [(plan_create hplan).2.2.2.1]; rfl
+    rcases fault_cases f with hf | ⟨hf, hf'⟩
+    · rw [odPass_fail hplan hf] at hr; simp at hr; subst hr; cases hex
+    · cases hfind : s.sets.find? (fun x => x.name == c.h s.template s.cc) with
+      | none =>
+        rcases hf' with hf' | hf'
+        · rw [odPass_lose hplan hf' hfind] at hr; simp at hr; subst hr; cases hex
+        · rw [odPass_ok hplan hf' hfind, (finish_fields _ _ _ _ _).2.2.2.2.2.2.2.2.1] at hr
+          simp at hr; subst hr; cases hex
+      | some conf =>
+        obtain ⟨hcs, hcn⟩ := find_name_eq hfind
+        by_cases hh : v = .hideBoth ∧ conf.member = true ∧ conf.serial ∈ s.unseen
+        · rw [odPass_hidden hplan hf hfind hh] at hr ⊢
+          simp at hr; subst hr
+          exact ⟨conf, hcs, by rw [hcn, hname], fun _ h => by cases h⟩
+        · cases hs : slowCache c conf latest s.template with
+          | true =>
+            rw [odPass_slow hplan hf hfind hh hs] at hr ⊢
+            rw [(finish_fields _ _ _ _ _).2.2.2.2.2.2.2.2.1] at hr
+            simp at hr; subst hr
+            refine ⟨conf, hcs, by rw [hcn, hname], ?_⟩
+            intro hcl _
+            exfalso
+            obtain ⟨harch, hrev, _, hspec⟩ := slowCache_true hs
+            rcases hcl with h | h | ⟨h0, m, hm, hlt⟩
+            · rw [harch] at h; cases h
+            · exact h hspec
+            · have hvis : m ∈ visible s v := newer_visible hi hcs hcn hm hlt
+              have hle := le_latestRev hvis
+              rw [← (plan_create hplan).2.2.2.2.1] at hle
+              rcases hrev with h | h
+              · omega
+              · exact h0 h
+          | false =>
+            rw [odPass_bump hplan hf hfind hh hs] at hr ⊢
+            rw [(finish_fields _ _ _ _ _).2.2.2.2.2.2.2.2.1] at hr
+            simp at hr; subst hr
+            refine ⟨conf, hcs, by rw [hcn, hname], ?_⟩
+            intro _ hres
+            exact (finish_res_ok hres).2.2
+  · have : ∀ new latest, plan c s v ≠ .create new latest := fun n l h => hcr ⟨n, l, h⟩
+    rw [odPass_noncreate this, (finish_fields _ _ _ _ _).2.2.2.2.2.2.2.2.1] at hr
+    cases hr
+
+/-- When every ObjectSet of the deployment reports a revision and the newest one does not carry the
+template hash, no cache view hides anything (what a view hides is a `Blocker`). -/
+theorem visible_eq_members_of_needed {c : Cfg} {s : State} (hi : Inv c s) (v : View)
+    (hrep : ∀ m ∈ members s, m.rev ≠ 0)
+    (hnew : ∀ m ∈ members s, (∀ m' ∈ members s, m'.rev ≤ m.rev) → m.hash ≠ c.h s.template s.cc) :
+    visible s v = members s := by
+  unfold visible members
+  apply List.filter_congr
+  intro x hx
+  by_cases hm : x.member = true
+  · have hu : x.serial ∉ s.unseen := by
+      intro hu
+      obtain ⟨_, _, hname, hoth⟩ := (hi.unseen_inv x hx hu).2.2
+      have hxm : x ∈ members s := mem_members.mpr ⟨hx, hm⟩
+      apply hnew x hxm
+      · intro m' hm'
+        obtain ⟨hms', hmm'⟩ := mem_members.mp hm'
+        by_cases hser : m'.serial = x.serial
+        · have : m' = x := inj_of_pairwise (f := OSet.serial) hi.serial_nodup hms' hx hser
+          rw [this]; exact Nat.le_refl _
+        · rcases (hoth m' hms' hmm' hser).2 with h | h
+          · exact absurd h (hrep x hxm)
+          · omega
+      · rw [(hi.mem_own x hx hm).1, hname]
+    simp [hm, hu]
+  · simp [hm]
+
+theorem plan_congr_visible {c : Cfg} {s : State} {v w : View} (h : visible s v = visible s w) :
+    plan c s v = plan c s w := by
+  unfold plan
+  simp only [h]
+
+/-- **Liveness per pass** in the model: a completed pass (any view) that needs a new ObjectSet creates
+one, bumps the counter, or clashed with an owned, unlabelled, live ObjectSet of equal spec. -/
+theorem odPass_acts {c : Cfg} {s : State} (hi : Inv c s) (f : Fault) (v : View) (sf : Bool)
+    (hp : s.paused = false) (ht : s.template ≠ 0) (hres : (odPass c s f v sf).res = .ok)
+    (hrep : ∀ m ∈ members s, m.rev ≠ 0)
+    (hnew : ∀ m ∈ members s, (∀ m' ∈ members s, m'.rev ≤ m.rev) → m.hash ≠ c.h s.template s.cc) :
+    (∃ new, (odPass c s f v sf).reqs = [⟨new, .ok⟩]) ∨ (odPass c s f v sf).st.cc = s.cc + 1 ∨
+    (∃ new conf, (odPass c s f v sf).reqs = [⟨new, .exists⟩] ∧ conf ∈ s.sets ∧ conf.name = new.name ∧
+      conf.member = false ∧ conf.owned = true ∧ conf.archived = false ∧ conf.spec = s.template) := by
+  have hvis := visible_eq_members_of_needed hi v hrep hnew
+  have hplan : plan c s v =
+      .create (newSet c s (sortByRev (members s))) (latestRev (sortByRev (members s))) := by
+    rw [plan_congr_visible (w := .fresh) (by rw [hvis, visible_fresh])]
+    exact plan_fresh_create hp ht hrep hnew
+  have hname : (newSet c s (sortByRev (members s))).name = c.h s.template s.cc := rfl
+  rcases fault_cases f with hf | ⟨hf, hf'⟩
+  · rw [odPass_fail hplan hf] at hres; cases hres
+  · cases hfind : s.sets.find? (fun x => x.name == c.h s.template s.cc) with
+    | none =>
+      rcases hf' with hf' | hf'
+      · rw [odPass_lose hplan hf' hfind] at hres; cases hres
+      · left
+        rw [odPass_ok hplan hf' hfind, (finish_fields _ _ _ _ _).2.2.2.2.2.2.2.2.1]
+        exact ⟨_, rfl⟩
+    | some conf =>
+      obtain ⟨hcs, hcn⟩ := find_name_eq hfind
+      by_cases hh : v = .hideBoth ∧ conf.member = true ∧ conf.serial ∈ s.unseen
+      · rw [odPass_hidden hplan hf hfind hh] at hres; cases hres
+      · cases hs : slowCache c conf (latestRev (sortByRev (members s))) s.template with
+        | true =>
+          right; right
+          rw [odPass_slow hplan hf hfind hh hs, (finish_fields _ _ _ _ _).2.2.2.2.2.2.2.2.1]
+          obtain ⟨harch, hrev, hown, hspec⟩ := slowCache_true hs
+          refine ⟨_, conf, rfl, hcs, by rw [hcn, hname], ?_, hown, harch, hspec⟩
+          cases hmem : conf.member with
+          | false => rfl
+          | true =>
+            exfalso
+            have hcm : conf ∈ members s := mem_members.mpr ⟨hcs, hmem⟩
+            apply hnew conf hcm
+            · intro m' hm'
+              have := le_latestRev hm'
+              rcases hrev with h | h
+              · omega
+              · exact absurd h (hrep conf hcm)
+            · rw [(hi.mem_own conf hcs hmem).1, hcn]
+        | false =>
+          right; left
+          rw [odPass_bump hplan hf hfind hh hs] at hres ⊢
+          exact (finish_res_ok hres).2.2
+
 end Pko.Lemmas.C07
